@@ -95,6 +95,11 @@ class MulticastOutgoingQueue:
     def async_remove_answers(self, answers: _AnswerWithAdditionalsType) -> None:
         """Remove answers that must no longer be sent (their service was withdrawn)."""
         self._remove_answers_from_queue(answers)
+        # A withdrawn record may also ride along as an additional of
+        # an answer that stays in the queue
+        for pending in self.queue:
+            for additionals in pending.answers.values():
+                additionals.difference_update(answers)
 
     def async_ready(self) -> None:
         """Process anything in the queue that is ready."""
